@@ -183,8 +183,11 @@ def r4_reads_are_never_pruned(ctx):
     """Every read_line call a program makes is executed: the effect tables class the built-in Impure, so a call whose result is
     unused (a header line that is only skipped) is not removed by the optimisation plan - otherwise later calls return earlier
     lines (shared with C03-R2, which compares each built-in's run-time arm with its effect class)."""
-    from .c03 import r2_effect_tables
+    from .c03 import r1_plan_only_from_pure, r2_effect_tables
     r2_effect_tables(ctx)
+    # ... and the class of a statement that calls user functions is joined with the callees' *transitive* class (a helper
+    # that reads a line through another helper is as impure as one that calls read_line itself): C03-R1
+    r1_plan_only_from_pure(ctx)
 
 
 def r5_no_stdin_lock_while_the_program_runs(ctx):
@@ -231,7 +234,63 @@ def r5_no_stdin_lock_while_the_program_runs(ctx):
         ctx.ok("stdin-lock|none", "src/bin", "no body of the CLI holds a StdinLock")
 
 
-RULES = [("C17-R1", r1_no_discarded_overread), ("C17-R2", r2_terminator_and_eof), ("C17-R3", r3_each_byte_once_and_unchanged), ("C17-R4", r4_reads_are_never_pruned), ("C17-R5", r5_no_stdin_lock_while_the_program_runs)]
+def r6_lossy_decoding_drops_nothing(ctx):
+    """Input that is not valid UTF-8 still arrives: the valid stretches unchanged, every invalid stretch as U+FFFD.  In the
+    lossy decoder the replacement is appended under exactly "the invalid part of this chunk is not empty" - a narrower test
+    (`len > 1`) deletes the shorter invalid sequences from the line - and the valid part of every chunk is appended
+    unconditionally inside the loop."""
+    fn = ctx.need("arena::string::ArenaString::from_utf8_lossy")
+    ctx.touch(fn)
+    pushes = [c for c in fn.calls() if (c.callee or "").endswith("push_str") and len(c.args) > 1]
+    rep = [c for c in pushes if "REPLACEMENT" in sh(ne(fn.deep(c.args[1]))) or "FFFD" in sh(ne(fn.deep(c.args[1]))).upper()]
+    val = [c for c in pushes if re.search(r"\bvalid\(", sh(ne(fn.deep(c.args[1]))))]
+    if not rep or not val:
+        ctx.bad("lossy|shape", fn.where(), "from_utf8_lossy no longer appends both the valid part of a chunk and the replacement character")
+        return
+    for c in rep:
+        conds = []
+        for S, al in fn.constraints(c.block):
+            si = fn.switch_info(S)
+            txt = sh(ne(fn.deep(fn.blocks[S]["t"]["d"])))
+            if "invalid(" not in txt:
+                continue
+            if si["kind"] == "call" and (si["callee"] or "").split("::")[-1] == "is_empty":
+                conds.append(("nonempty" if set(al) == {0} else "empty", S))
+            elif si["kind"] == "bin":
+                a, b = si["a"], si["b"]
+                k = b.get("int") if isinstance(b, dict) else None
+                flip = False
+                if k is None and isinstance(a, dict) and a.get("int") is not None:
+                    k, flip = a["int"], True
+                op = si["op"] if not flip else {"Gt": "Lt", "Ge": "Le", "Lt": "Gt", "Le": "Ge", "Eq": "Eq", "Ne": "Ne"}[si["op"]]
+                taken_true = 0 not in al
+                # which lengths reach the push?
+                lens = [n_ for n_ in range(0, 5) if ({"Gt": n_ > k, "Ge": n_ >= k, "Lt": n_ < k, "Le": n_ <= k, "Eq": n_ == k, "Ne": n_ != k}[op]) == taken_true] if k is not None else None
+                conds.append(("nonempty" if lens == [1, 2, 3, 4] else "lengths %s" % lens, S))
+            else:
+                conds.append(("other", S))
+        last = conds[-1] if conds else None
+        if last and last[0] == "nonempty" and all(k == "nonempty" for k, _s in conds[-1:]):
+            ctx.ok("lossy|replacement-guard", fn.where(c.block), "U+FFFD appended exactly when invalid() is not empty")
+        else:
+            ctx.bad("lossy|replacement-guard|%s" % (last[0] if last else "unguarded"), fn.where(c.block), "the replacement character is appended under `%s` instead of \"the invalid part is not empty\": invalid sequences of the other lengths vanish from the line read (a lone 0xE9 from a Latin-1 file is deleted instead of becoming U+FFFD)" % (last[0] if last else "no test"))
+    # the valid part: appended on every iteration (dominates the loop's continuation), under no test on the chunk
+    for c in val:
+        extra = [S for S, al in fn.constraints(c.block) if "valid(" in sh(ne(fn.deep(fn.blocks[S]["t"]["d"]))) and not fn.dominates(c.block, S) and "invalid(" not in sh(ne(fn.deep(fn.blocks[S]["t"]["d"])))]
+        if extra:
+            ctx.bad("lossy|valid-conditional", fn.where(c.block), "the valid part of a chunk is appended only under a test on it")
+        else:
+            ctx.ok("lossy|valid-appended", fn.where(c.block), "valid part appended for every chunk")
+
+
+def r7_reads_in_one_expression_arrive_in_source_order(ctx):
+    """`read_line("") add "=" add read_line("")`: the left operand is evaluated - and its line consumed - before the right one
+    (shared with C01-R4, the evaluation-order rule: operands, arguments, elements and index expressions left to right)."""
+    from .c01 import r4_order_shortcircuit_zero
+    r4_order_shortcircuit_zero(ctx)
+
+
+RULES = [("C17-R1", r1_no_discarded_overread), ("C17-R2", r2_terminator_and_eof), ("C17-R3", r3_each_byte_once_and_unchanged), ("C17-R4", r4_reads_are_never_pruned), ("C17-R5", r5_no_stdin_lock_while_the_program_runs), ("C17-R6", r6_lossy_decoding_drops_nothing), ("C17-R7", r7_reads_in_one_expression_arrive_in_source_order)]
 
 EXPLANATION = (
     "R1: in the host implementation of Stdin::read_line (resolved through the sys::stdin alias from GlobalBuiltin::read_line) "
@@ -243,6 +302,9 @@ EXPLANATION = (
     "fill_buf and copied into the line are consumed before anything else is read (else they are delivered twice); neither the "
     "platform routine nor the built-in wrapper edits the content of the line (trim / replace / truncate ...), the terminator is "
     "removed by position only, and a pop is guarded by `last == newline`."
+)
+EXPLANATION += (
+    " R4 also shares C03-R1 (a statement's class is joined with the callees' transitive class). R6: the lossy decoder appends U+FFFD under exactly 'the invalid part of the chunk is not empty' and the valid part of every chunk unconditionally. R7 (= C01-R4): operands are evaluated left to right, so two reads in one expression arrive in source order."
 )
 ASSUMPTIONS = ["unix back end only (windows/wasm implementations are not compiled on this host)", "std's Stdin buffer is process-wide and keeps unread bytes between calls"]
 TRUSTED = ["rustc nightly MIR/trait resolution", "nsx exporter"]
